@@ -28,9 +28,11 @@ thread_local! {
 
 /// Turn the virtual clock on for this thread, starting at `start_ns`, with per-read ticks
 /// of `base + [0, jitter]` nanoseconds drawn from a private xorshift seeded by `seed`.
+/// (`base` 0 = time only moves when the simulator moves it; the tracer runs always use a
+/// base of at least 1 so that two reads never return the same instant.)
 pub fn enable(start_ns: u64, base: u64, jitter: u64, seed: u64) {
     NOW.with(|c| c.set(start_ns));
-    TICK_BASE.with(|c| c.set(base.max(1)));
+    TICK_BASE.with(|c| c.set(base));
     TICK_JITTER.with(|c| c.set(jitter));
     TICK_RNG.with(|c| c.set(seed | 1));
     READS.with(|c| c.set(0));
